@@ -12,7 +12,7 @@ INT_CODES = [0, 1, 2, 3, 4, 5, 6, 7]
 T_RAW = 0xFFFFFFFF
 
 
-def draw(rnd, byte_digital_only=False, max_segs=3, allow_props=True, disjoint=False):
+def draw(rnd, byte_digital_only=False, max_segs=3, allow_props=True, disjoint=False, switch_off=True):
     nbuf = rnd.randint(1, 3)
     lens = [rnd.randint(0, 4) for _ in range(nbuf)]
     if all(l == 0 for l in lens):
@@ -70,26 +70,43 @@ def draw(rnd, byte_digital_only=False, max_segs=3, allow_props=True, disjoint=Fa
             widths[b] = rnd.randint(1, 4)
     segs = []
     nseg = rnd.randint(1, max_segs)
+    live = set(range(len(chans)))        # channels that currently have data
+    listed = set()                       # channels in the current object list
     for si in range(nseg):
         big = rnd.random() < 0.5
         objs = []
         if si == 0 or rnd.random() < 0.5:
             has_meta, new_list = True, (si == 0 or rnd.random() < 0.5)
-            for c in chans:
-                if si == 0 or new_list or rnd.random() < 0.6:
-                    if si > 0 and rnd.random() < 0.5:
-                        idx = ("M",)
-                    else:
-                        idx = ("D", digital, c["ty"], c["n"], c["scalers"], widths)
-                    props = [rand_prop(rnd) for _ in range(rnd.choice([0, 0, 1]))] if allow_props else []
-                    objs.append(dict(path=c["path"], idx=idx, props=props))
+            if new_list:
+                listed = set()
+                keep = [ci for ci in range(len(chans)) if si == 0 or rnd.random() < 0.8] or [rnd.randrange(len(chans))]
+                live = set()
+            else:
+                keep = [ci for ci in range(len(chans)) if rnd.random() < 0.6]
+            for ci in keep:
+                c = chans[ci]
+                was_live = ci in live
+                r = rnd.random()
+                if si > 0 and not new_list and switch_off and r < 0.2:
+                    idx = ("N",)         # an object of the list switched off: it keeps its place but has no data from here on
+                    live.discard(ci)
+                elif si > 0 and was_live and ci in listed and r < 0.6:
+                    idx = ("M",)
+                else:
+                    idx = ("D", digital, c["ty"], c["n"], c["scalers"], widths)
+                    live.add(ci)
+                listed.add(ci)
+                props = [rand_prop(rnd) for _ in range(rnd.choice([0, 0, 1]))] if allow_props else []
+                objs.append(dict(path=c["path"], idx=idx, props=props))
             if si == 0 and rnd.random() < 0.5:
                 objs = [dict(path=path_of(), idx=("N",), props=[]), dict(path=path_of("daq"), idx=("N",), props=[])] + objs
         else:
             has_meta, new_list = False, False
-        chunk_bytes = sum(lens[b] * widths[b] for b in range(nbuf))
+        # a raw buffer has rows only while a channel with data has a scaler in it
+        eff = [lens[b] if any(sc[1] == b for ci in live for sc in chans[ci]["scalers"]) else 0 for b in range(nbuf)]
+        chunk_bytes = sum(eff[b] * widths[b] for b in range(nbuf))
         nchunks = rnd.randint(1, 3) if chunk_bytes > 0 else 0
-        chunks = [[[bytes(rnd.getrandbits(8) for _ in range(widths[b])) for _ in range(lens[b])] for b in range(nbuf)] for _ in range(nchunks)]
+        chunks = [[[bytes(rnd.getrandbits(8) for _ in range(widths[b])) for _ in range(eff[b])] for b in range(nbuf)] for _ in range(nchunks)]
         segs.append(dict(hasMeta=has_meta, newList=new_list, interleaved=False, big=big, rawFlag=nchunks > 0, daqmxFlag=True,
                          lengthUnknown=False, version=4713, padding=0, objs=objs, chunks=chunks))
     segs[0]["_fields"] = fields
@@ -120,6 +137,7 @@ def expected_values(segs):
     out = {}
     active = {}
     order = []
+    off_now = set()
     for s in segs:
         if s["hasMeta"]:
             if s["newList"]:
@@ -127,10 +145,15 @@ def expected_values(segs):
             for ob in s["objs"]:
                 if ob["idx"][0] == "D":
                     active[ob["path"]] = ob["idx"]
+                    off_now.discard(ob["path"])
+                if ob["idx"][0] == "N" and ob["path"] in active:
+                    off_now.add(ob["path"])
                 if ob["idx"][0] in ("D", "M") and ob["path"] not in order:
                     order.append(ob["path"])
         for ch in s["chunks"]:
             for p in order:
+                if p in off_now:
+                    continue
                 _, dg, ty, n, scalers, widths = active[p]
                 for code, b, off, _bm, sid in scalers:
                     size = DAQ_TYPES[code]
